@@ -79,6 +79,14 @@ Definition sz_element (x : pattern_element) : nat :=
   match x with TextElement _ => 0 | PlaceableElement e => Nat.max (lf_expr e) (sz_expr e) end.
 Definition sz_variant (v : variant) : nat := match v with Variant _ p _ => sz_pattern p end.
 
+(* bytes = at most (widest piece) x (number of pieces) *)
+Lemma flatten_length_le (W : nat) (o : list otoken) :
+  Forall (fun t => length (token_bytes t) <= W) o -> length (flatten o) <= W * length o.
+Proof.
+  unfold flatten. induction 1 as [|t r Ht _ IH]; cbn [flat_map length]; [lia|].
+  rewrite app_length. lia.
+Qed.
+
 Section Bounds.
 Variable overflow_checks : bool.
 Variable call_function : bytes -> list fvalue -> fargs -> fvalue.
